@@ -104,9 +104,13 @@ func (c *Cache) Start() error {
 		return errors.New("cache: already started")
 	}
 	inCh := make(chan *EventSubscription, 100)
+	// An unsubscribe callback of the queue cleared by a previous Stop may
+	// still be running, and reads the event subscriptions under the lock.
+	c.mu.Lock()
 	c.eventSubs = make(map[string]*EventSubscription)
 	c.unsubQueue = timerqueue.New(c.mqUnsubscribe, c.unsubscribeDelay)
 	c.inCh = inCh
+	c.mu.Unlock()
 
 	for i := 0; i < c.workers; i++ {
 		go c.startWorker(inCh)
